@@ -207,7 +207,7 @@ impl Link {
     }
 
     fn take(&mut self) {
-        if let Ok(v) = self.r.slots[0].datareader.take(100_000, ReadCondition::any()) {
+        if let Ok(v) = self.r.slots[0].dr().take(100_000, ReadCondition::any()) {
             for ds in v {
                 let sn: i64 = ds.sample_info().sample_identity().sequence_number.into();
                 self.handed.push(sn);
